@@ -114,6 +114,7 @@ class Shard:
         self.samples = []
         self.margin = {}
         self.refused = 0
+        self._perkind = {}
         self.t0 = time.time()
 
     # -- bookkeeping -------------------------------------------------------------
@@ -148,7 +149,10 @@ class Shard:
         tags   : mechanism facts about the case (used by known-finding predicates)
         """
         self.count("violation:" + kind)
-        if len(self.violations) < 200:
+        # keep at most 40 records per monitor kind (and 1500 in all): a frequent known
+        # mechanism must never crowd a different failure out of the list
+        self._perkind[kind] = self._perkind.get(kind, 0) + 1
+        if self._perkind[kind] <= 40 and len(self.violations) < 1500:
             self.violations.append({"kind": kind, "case": jsonable(case),
                                     "detail": jsonable(detail),
                                     "tags": jsonable(tags or {})})
